@@ -409,6 +409,26 @@ def check_case(case, ev):
                     raise Violation("c16.on_missing_error_not_raised", f"[{tag}] on_missing=error but {missing} are missing and the run returned {out2.brief()}", runner=case["runner"])
     elif out2.status == "raised" and case["on_missing"] == "error":
         pass
+    # the same call as a one-item map(): graph default, run-time select and on_missing mean the same there
+    if out2.status == "completed" and vals and special == "none":
+        import asyncio as _aio
+
+        from hypergraph import AsyncRunner, SyncRunner
+
+        mp = sorted(vals)[0]
+        mkw = {k: v for k, v in kw.items() if k in ("select", "on_missing", "on_internal_override")}
+        with warnings.catch_warnings():
+            warnings.simplefilter("ignore")
+            try:
+                if case["runner"] == "sync":
+                    res = SyncRunner().map(g2, {**vals, mp: [vals[mp]]}, map_over=mp, **mkw)
+                else:
+                    res = _aio.run(AsyncRunner().map(g2, {**vals, mp: [vals[mp]]}, map_over=mp, **mkw))
+            except Exception as e:  # noqa: BLE001
+                raise Violation("c16.map_differs_from_run", f"[{tag}] run() completed with {J(out2.values)} but the one-item map() raised {type(e).__name__}: {str(e)[:200]}", how="raised") from None
+        if len(res) != 1 or res[0].status.value != "completed" or dict(res[0].values) != out2.values:
+            raise Violation("c16.map_differs_from_run", f"[{tag}] run() returned {J(out2.values)}; the one-item map() over {mp!r} returned {[(r.status.value, J(dict(r.values))) for r in res]}", how="values")
+        labels.add("one_item_map_agrees")
     excluded_runnable = bool(entry) and any(n["name"] not in active for n in topo)
     drops = eff_sel is not None and any(k not in eff_sel for k in env)
     labels.add("status:" + out2.status)
